@@ -159,7 +159,8 @@ func createHtmlAttrs(attrs []html.Attribute) []HtmlAttribute {
 	for _, i := range attrs {
 		name := i.Key
 
-		if name == xmlns {
+		if name == xmlns || i.Namespace == xmlns {
+			// xmlns="..." and, in foreign content, xmlns:prefix="..."
 			continue
 		}
 
